@@ -28,4 +28,24 @@ PROPS = {
             "(function, representation) pairs not documented in docs/docs/std/seq.md (join and repeat on byte arrays) are only required not to panic",
         ],
     },
+    "C01": {
+        "level": "exploration",
+        "technique": "property-based testing (rapid): generated set operands in every representation and construction path vs a finite-set reference model",
+        "level_text": "Generated-input search: operands of every set-algebra operator are drawn in all representations "
+                      "(string, bytes, array, dict, relation, mixed-bucket unions, offsets, holes, colliding indices/keys, "
+                      "literal and computed construction paths) and the result is compared member by member with a reference "
+                      "model of finite sets; Count(), Has() and the enumeration of the result are cross-checked. Absence beyond "
+                      "the generated sizes (width <= 6, depth <= 3) is not established.",
+        "level_note": "Trusted: harness/model (finite sets by comprehension, own unit tests), obs.Denote (exported enumerators only), rapid. "
+                      "Failures inside the two open known findings (superimposed sequence index, sparse byte array) are excused by model-side tags only.",
+        "tests": [{"name": "TestC01", "quick": 3000, "thorough": 25000}],
+        "rule": "one operator of | & &~ ~~ with without <: !<: (<) (<=) (>) (>=) (<>) (<>=) count where => ^ applied to generated sets; "
+                "oracle = reference model result compared with the denotation of the evaluated result, plus Count/Has/enumeration consistency. "
+                "Non-trivial: operands of different representation kinds, or an operand with offset/holes/colliding index or key/mixed buckets, "
+                "or a result whose representation differs from both operands. Distinct = distinct program text.",
+        "assumptions": COMMON_ASSUMPTIONS + [
+            "sugar-shaped tuples (@: i, @char|@byte|@item: x) are generated with integer i and in-range char/byte only (other shapes panic and are pinned by the repository's own tests; C10)",
+            "power set operands are cut to 5 members",
+        ],
+    },
 }
